@@ -509,7 +509,7 @@ func (fx *FuncCtx) builtinAppend(st *State, args []*Val, resT types.Type, pos to
 
 func (fx *FuncCtx) applyContract(st *State, ct *Contract, names []string, args []*Val, resT types.Type, key string, pos token.Pos, callee *ssa.Function) *Val {
 	fx.callsContract[key] = true
-	if ct.Trusted {
+	if ct.Trusted || ct.NoBody {
 		fx.trusted[key] = true
 	}
 	fx.callN[key]++
@@ -531,7 +531,7 @@ func (fx *FuncCtx) applyContract(st *State, ct *Contract, names []string, args [
 		short = short[i+1:]
 	}
 	for _, c := range ct.Requires {
-		t := fx.evalClause(c, envPre)
+		t := fx.evalGoal(c, envPre)
 		ob := fx.oblige(st, "pre", fmt.Sprintf("pre:%s.%s@call%d", short, c.Label, k), t, pos, true)
 		if ob != nil {
 			ob.Expr = "precondition " + c.Label + " of " + short + ": " + c.Text
@@ -753,8 +753,24 @@ func (fx *FuncCtx) atReturn(st *State, ins *ssa.Return, vals []*Val) {
 		delete(env.vars, "ret0")
 	}
 	env.fn = nil
+	for _, c := range fx.ct.RetHints {
+		henv := fx.clauseEnv(st, fx.entryAfterReq, vals)
+		henv.fn = fx.fn
+		henv.at = fx.curBlock
+		if !henv.localsInScope(c.Expr) {
+			// the lemma names locals that do not exist on this return path: it does not apply here
+			continue
+		}
+		t := fx.evalGoal(c, henv)
+		ob := fx.oblige(st, "hint", fmt.Sprintf("hint:%s@ret%d", c.Label, k), t, ins.Pos(), false)
+		fx.tagClause(ob, c)
+		henv2 := fx.clauseEnv(st, fx.entryAfterReq, vals)
+		henv2.fn = fx.fn
+		henv2.at = fx.curBlock
+		fx.emit("(assert " + imp(st.R, fx.evalClause(c, henv2)) + ") ;@hyp:hint." + c.Label)
+	}
 	for _, c := range fx.ct.Ensures {
-		t := fx.evalClause(c, env)
+		t := fx.evalGoal(c, env)
 		label := c.Label
 		if c.Alt != "" {
 			label = strings.ReplaceAll(c.Alt, "/", ".") + "." + c.Label
@@ -811,7 +827,7 @@ func (fx *FuncCtx) refineCheck(st *State, k int, pos token.Pos, vals []*Val) {
 		if len(want) > 0 && !want[c.Label] {
 			continue
 		}
-		t := fx.evalClause(c, env)
+		t := fx.evalGoal(c, env)
 		ob := fx.oblige(st, "refine", fmt.Sprintf("refine:%s.%s@ret%d", ik, c.Label, k), t, pos, false)
 		if ob != nil {
 			ob.Expr = "refinement of " + ik + ": " + c.Text
@@ -1169,4 +1185,33 @@ func (fx *FuncCtx) fieldComp(env *Env, tx, fxp ast.Expr) (string, string, bool) 
 		}
 	}
 	return compName(t, path), "(Array Int " + fx.u.sortOf(cur) + ")", true
+}
+
+// localsInScope: every identifier of x that names a local of the function is
+// allocated on all paths to the current block.
+func (e *Env) localsInScope(x ast.Expr) bool {
+	ok := true
+	ast.Inspect(x, func(n ast.Node) bool {
+		id, is := n.(*ast.Ident)
+		if !is || e.fn == nil {
+			return true
+		}
+		name := id.Name
+		if i := strings.LastIndex(name, "__"); i > 0 {
+			name = name[:i]
+		}
+		declared := false
+		for _, b := range e.fn.Blocks {
+			for _, ins := range b.Instrs {
+				if a, isA := ins.(*ssa.Alloc); isA && a.Comment == name {
+					declared = true
+				}
+			}
+		}
+		if declared && e.lookupLocal(id.Name) == nil {
+			ok = false
+		}
+		return true
+	})
+	return ok
 }
